@@ -85,7 +85,7 @@ Proof. split; [exact open_bytes_map|exact open_u64_map]. Qed.
     the 16 signature bytes of any file - is a read-only step: the three byte strings are unchanged
     and every logged event is a read or a seek inside the file.  "A rejected open leaves all files
     byte-for-byte unchanged" as a theorem about the I/O actually performed. *)
-From Aby Require Import Load Load_all Io Io_base Io_htx Io_open.
+From Aby Require Import Load Load_all Io Io_base Io_htx Io_open Io_open_any.
 Import Io.
 
 Theorem C13_byte_level_wrong_type_rejected_without_a_write : forall s t h k v st0,
@@ -108,3 +108,25 @@ Theorem C13_byte_level_open_only_looks : forall s t h k v st0 o st1,
   open_existing t st0 = Ok (o, st1) ->
   ro_step st0 st1 /\ st_images st1 = (h, k, v).
 Proof. exact Io_open_readonly. Qed.
+
+(** ANY files - short, foreign, garbage; no well-formedness, no minimal length: a file that is not
+    empty and whose first 16 bytes, as far as they exist (beyond the end the buffered file reads
+    zeros), are not signature1 followed by the signature of the requested key type is refused AT
+    THAT FILE by a read-only step - provided the files checked before it (key, value, table is the
+    order) pass.  This covers a table file cut to 16 bytes of another key type's (seeded C13d). *)
+Theorem C13_byte_level_any_foreign_file_rejected_without_a_write : forall t st0 f,
+  passes_before t st0 f -> foreign_hdr (sig1_of f) (sig_of t) (fb (Io.get_file st0 f)) ->
+  exists st1, open_existing t st0 = Ok (RejectedAt f, st1) /\ ro_step st0 st1 /\ st_images st1 = st_images st0.
+Proof. exact open_any_foreign_rejected. Qed.
+
+(** conversely, an accepted open saw the 16 right bytes at the start of every file *)
+Theorem C13_byte_level_accepted_open_saw_the_signatures : forall t st0 m st1,
+  open_existing t st0 = Ok (Opened m, st1) ->
+  forall f, blen (fb (Io.get_file st0 f)) <> 0 /\ fld (fb (Io.get_file st0 f)) 0 = sig1_of f /\
+            fld (fb (Io.get_file st0 f)) 8 = sig_of t.
+Proof. exact open_any_accepted_has_signatures. Qed.
+
+(** and for ANY three byte strings the open - accepted, refused or "fresh" - is a read-only step *)
+Theorem C13_byte_level_any_open_only_looks : forall t st0 o st1,
+  open_existing t st0 = Ok (o, st1) -> ro_step st0 st1 /\ st_images st1 = st_images st0.
+Proof. exact Io_open_readonly_any. Qed.
